@@ -1444,3 +1444,84 @@ Proof.
   unfold dispatch. cbn [with_p2p l_disp l_now]. destruct (R.step (l_disp stj) (R.Req r (l_now stj))) as [d' x]. cbn [fst snd app]. left. reflexivity.
 Qed.
 End NetHop.
+
+(* ================================================================== boolean forms of the premises (for computed example histories) *)
+Definition is_cleanup (o : lop) : bool := match o with LCleanup => true | _ => false end.
+Definition is_purge (o : lop) : bool := match o with LPurge => true | _ => false end.
+Definition is_clock (o : lop) : bool := match o with LClock _ => true | _ => false end.
+
+Fixpoint lmonob (t0 : Z) (H : list lop) : bool :=
+  match H with
+  | [] => true
+  | LClock t :: r => (t0 <=? t) && lmonob t r
+  | _ :: r => lmonob t0 r
+  end.
+Lemma lmonob_sound : forall H t0, lmonob t0 H = true -> lmono t0 H.
+Proof.
+  induction H as [|o H IH]; intros t0 Hb; [exact I|]. destruct o; cbn [lmonob lmono] in *; try (apply IH; exact Hb).
+  apply andb_prop in Hb as [A B]. split; [apply Z.leb_le; exact A|apply IH; exact B].
+Qed.
+
+Definition pending_atb (st : lnode) (h : bytes) (c : Z) (tx : bytes) : bool :=
+  match alookup h (agg (l_proc st)) with
+  | Some e =>
+    match our_msg e, our_vaa e with
+    | Some _, Some v =>
+      negb (submitted e) && settled e && (retries e <? proc_own_retry_budget) && negb (in_db_of (l_proc st) e) && bytes_eqb (txh e) tx
+      && (echain v mod 2 ^ 32 =? c) && (first_seen e + proc_retry_after_ns <=? l_now st)
+    | _, _ => false
+    end
+  | None => false
+  end.
+Lemma pending_atb_sound st h c tx : pending_atb st h c tx = true -> pending_at st h c tx.
+Proof.
+  unfold pending_atb, pending_at. destruct (alookup h (agg (l_proc st))) as [e|]; [|discriminate]. destruct (our_msg e) as [o|] eqn:Em; [|discriminate].
+  destruct (our_vaa e) as [v|] eqn:Ev; [|discriminate]. intros Hb. repeat (apply andb_prop in Hb as [Hb ?]). exists e, o, v.
+  split; [reflexivity|]. split; [split; [exact Em|split; [exact Ev|apply negb_true_iff; assumption]]|]. split; [assumption|]. split; [apply Z.ltb_lt; assumption|].
+  split; [apply negb_true_iff; assumption|]. split; [apply bytes_eqb_eq; assumption|]. split; [apply Z.eqb_eq; assumption|apply Z.leb_le; assumption].
+Qed.
+
+Lemma forallb_states {A} (f : A -> bool) (l : list A) : forallb f l = true -> forall x, In x l -> f x = true.
+Proof. intros H. apply forallb_forall. exact H. Qed.
+
+Fixpoint allz (f : Z -> bool) (lo : Z) (n : nat) : bool := match n with O => true | S k => f lo && allz f (lo + 1) k end.
+Lemma allz_sound f : forall n lo, allz f lo n = true -> forall k, lo <= k < lo + Z.of_nat n -> f k = true.
+Proof.
+  induction n as [|n IH]; intros lo Hb k Hk; [lia|]. cbn [allz] in Hb. apply andb_prop in Hb as [A B].
+  destruct (Z.eq_dec k lo) as [->|Hn]; [exact A|]. apply (IH (lo + 1) B). lia.
+Qed.
+
+(* ================================================================== the Alephium watcher as the oracle of chain 255 (C08 contract) *)
+From WH Require Import gen.ExtractedAlphPipe model.AlphPipeline proofs.AlphPipelineRead proofs.AlphPipelineBase proofs.AlphPipelineSafety.
+From WH Require proofs.AlphWatcherSafety.
+
+Section AlphInstance.
+Variable cfg : xcfg.
+Variable EP : xevent -> Prop.
+Variable HP : Z -> AlphWatcher.header -> Prop.
+Variable AP : xmc_ans -> Prop.
+(* what the Alephium node answers when the watcher handles request r at clock reading t: every API answer of handleObsvRequest *)
+Variable node : R.req -> Z -> xreobs_in.
+Variable other : Z -> R.req -> Z -> list msgpub.      (* the watchers of the other chains *)
+
+(* the re-observation path of model/AlphPipeline.v (reobserve.go statement by statement, conversions included) as the loop's oracle *)
+Definition alph_watch : Z -> R.req -> Z -> list msgpub :=
+  fun c r t => if c =? alph_chain_id then map xf_pub (fst (xreobserve cfg (node r t))) else other c r t.
+
+(* C08's end-to-end theorem is the contract of that oracle: whatever request arrives, every message the Alephium watcher hands to
+   the processor in answer is the faithful conversion of ONE event the node served for the requested transaction with the governance
+   address, in a block the node reports as main chain, and is `justified` (depth, hold time, attestation metadata) at that moment *)
+Theorem alph_watch_contract :
+  (forall r t, xop_ok cfg EP HP AP (XReobs (node r t))) ->
+  forall r t m, In m (alph_watch alph_chain_id r t) ->
+  exists f, m = xf_pub f /\ faithful cfg EP HP AP f /\ reobs_from cfg (node r t) f /\
+    AlphWatcherSafety.justified (abs_cfg cfg) (EPa EP) HP (APa AP) (abs_op (XReobs (node r t))) (abs_fwd f).
+Proof.
+  intros Hok r t m Hin. unfold alph_watch in Hin. rewrite Z.eqb_refl in Hin. apply in_map_iff in Hin as (f & <- & Hf). exists f. split; [reflexivity|].
+  pose proof (pipeline_end_to_end cfg EP HP AP [XReobs (node r t)] (xinit 0) (XInv_init EP HP AP 0) (Forall_cons _ (Hok r t) (Forall_nil _))) as J.
+  cbn [xall_fwds] in J. rewrite app_nil_r in J. rewrite Forall_forall in J.
+  assert (Hx : In (XReobs (node r t), f) (map (fun f0 => (XReobs (node r t), f0)) (xo_fwd (snd (xstep cfg (xinit 0) (XReobs (node r t))))))).
+  { apply in_map. cbn [xstep xinit x_dead]. destruct (xreobserve cfg (node r t)) as [fw fl]. cbn [snd xo_fwd fst] in *. exact Hf. }
+  destruct (J _ Hx) as [[Ff Rf] Jf]. cbn [fst snd] in *. auto.
+Qed.
+End AlphInstance.
